@@ -65,6 +65,16 @@ theorem nthValue_ne_empty (i : Nat) : (nthValue i).isEmpty = false := by
     rw [String.ofList_eq_empty_iff] at this
     simp [List.replicate_succ] at this
 
+/-- `nthValue i` has no white space around it: `strings.TrimSpace` leaves it as it is. -/
+theorem trimSpace_nthValue (i : Nat) : trimSpace (nthValue i) = nthValue i := by
+  have hd : ∀ n, (List.replicate (n + 1) 'v').dropWhile isSpace = List.replicate (n + 1) 'v' := by
+    intro n
+    rw [List.replicate_succ, List.dropWhile_cons]
+    have : isSpace 'v' = false := by decide
+    simp [this]
+  unfold trimSpace nthValue
+  rw [String.toList_ofList, hd, List.reverse_replicate, hd, List.reverse_replicate]
+
 theorem nthValue_inj {i j : Nat} (h : nthValue i = nthValue j) : i = j := by
   unfold nthValue at h
   have := congrArg List.length (String.ofList_inj.mp h)
@@ -103,7 +113,7 @@ theorem manyAdds_state {s0 : State} {sg addr name : String} {e : Nat} (h0 : Init
       have hv : validateExpirationDate s ⟨addr, name, nthValue n, .string, some e⟩ = true := by
         simp [validateExpirationDate, i1, hnow]
       have hb : validateBasic ⟨addr, name, nthValue n, .string, some e⟩ = true := by
-        simp [validateBasic, isValidValueForType, hname, haddr, nthValue_ne_empty]
+        simp [validateBasic, isValidValueForType, hname, haddr, nthValue_ne_empty, trimSpace_nthValue]
       have hr : resolvesTo s name sg = true := by rw [resolvesTo_congr i3]; exact hres
       simp only [step, setAttribute, hv, hb, i2, hacct, hr, Bool.not_true, Bool.false_eq_true, if_false]
       rfl
